@@ -785,6 +785,19 @@ PROPERTIES = {
             "aliasing between the checker's copies and the source System is invisible to a value-passing model: "
             "covered by the repeated-run monitors only (PARTIAL for the clause 'the System it was created from is untouched')"],
     },
+    "C12": {
+        "suites": [suite_netsweep, suite_mc],
+        "rule": "NETSWEEP: one cross-node and one same-node send explored by the real ModelChecker under every "
+                "combination of rate signs (drop, duplication, corruption zero / positive) x 9 link settings (none, "
+                "sender outgoing, receiver incoming, directed link, reverse link, sender incoming, partition, "
+                "disconnect receiver, cut-then-reset), rates applied in the snapshot or in the callback, payloads "
+                "incl. nested / empty quotes, escapes and non-ASCII; the full traces of all explored states are "
+                "compared with the model and checked against the documented fates. " + MC_RULE +
+                "distinct_nontrivial = sweep scenarios with a positive rate and >= 3 explored states, plus MC "
+                "scenarios as for C09.",
+        "assumptions": STD_ASSUMPTIONS + ["the regex crate implements the pattern extracted from both call sites as "
+                                          "Msg.corrupt does (checked on the payloads of this run and by the simulator monitors)"],
+    },
     "C13": {
         "suites": [suite_store],
         "rule": "as C20 (STORE scenarios with timers of equal and different delays set, re-set, cancelled and fired at "
